@@ -31,10 +31,23 @@ def main():
         if f:
             lines += f(rng, tier)
     # each chunk in its own process: a crash or watchdog exit loses only that chunk's counters
-    CH = 400
+    CH = 200
+    cenv = dict(env, GOCOVERDIR=covdir, VERIF_OP_TIMEOUT_MS="20000", GOMEMLIMIT="2GiB")
+    lost = 0
+    def run(ls):
+        try:
+            return subprocess.run([exe], input="\n".join(ls) + "\n", text=True, capture_output=True, env=cenv, timeout=600).returncode
+        except subprocess.TimeoutExpired:
+            return -1
     for i in range(0, len(lines), CH):
-        subprocess.run([exe], input="\n".join(lines[i:i + CH]) + "\n", text=True, capture_output=True,
-                       env=dict(env, GOCOVERDIR=covdir, VERIF_OP_TIMEOUT_MS="20000"), timeout=900)
+        chunk = lines[i:i + CH]
+        if run(chunk) != 0:
+            # a case ended the process (time cap, or the out-of-memory abort of finding PF-21): its chunk's counters
+            # are gone; run the chunk again line by line so that only the culprit is lost
+            for l in chunk:
+                if run([l]) != 0:
+                    lost += 1
+    print("cases whose process ended abnormally (counters lost):", lost)
     prof = os.path.join(work, "prof.txt")
     subprocess.check_call(["go", "tool", "covdata", "textfmt", "-i=" + covdir, "-o", prof], env=env)
     out = subprocess.run(["go", "tool", "cover", "-func=" + prof], cwd=hd, env=env, capture_output=True, text=True).stdout
